@@ -17,6 +17,7 @@ HARNESSES = ()
 THEOREMS = ["C03_stamp_sender", "C03_stamp_clean", "C03_stamp_intact", "C03_forged_irrelevant",
             "C03_sender_partial", "C03_every_delivery", "C03_sender_refuted", "C03_placeholder_is_no_name",
             "C03_unique", "C03_names_exact", "C03_name_form_injective", "C03_no_fault_below_bound", "C03_second_hello_refused",
+            "C03_registry_only_hello", "C03_resolve_sound", "C03_departed_never_again", "C03_colon_request_refused", "C03_ex_no_squatting",
             "C03_release_only_live", "C03_field_position_independent", "C03_relay_wellformed", "C03_relay_bytes", "C03_relay_bytes_unique",
             "C03_minted_name_valid", "C03_mint_matches_c", "C03_constants_match_c", "C03_ex_hold_release", "C03_ex_hold_fail", "C03_ex_relay_bytes",
             "C03_ex_hypotheses_satisfiable", "C03_ex_names", "C03_ex_forwarded", "C03_ex_placeholder", "C03_ex_f13"]
@@ -182,7 +183,8 @@ def run(ctx):
                 "interface; without DESTINATION; as a signal; repeated; after LimitsExceeded), disconnect and reconnect with reused client ids, RequestName (well-known "
                 "names and forged ':N.M' names), AddMatch (incl. eavesdrop), driver queries, and messages of all four types, unicast to live / dead unique names and "
                 "activatable names (55%% of the histories have service files: messages are kept, then released by a RequestName or bounced by a failing start, "
-                "with writers leaving and ids being reused in between), "
+                "with writers leaving and ids being reused in between), RequestName with all 8 flag combinations / ReleaseName / GetNameOwner / ListQueuedOwners on "
+                "names beginning with ':' (another live connection's, one's own, a departed one, a never minted one) interleaved with disconnects and messages to those names, "
                 "well-known names, to the driver, and without DESTINATION, before and after Hello, both byte orders, flags incl. undefined bits; 60%% of the decorated "
                 "messages carry a forged SENDER (other clients' names, org.freedesktop.DBus, :not.active.yet, ...) at a random position of the field array, 0-3 unknown "
                 "field codes from {11,12,13,64,127,128,200,254,255,random} with random variant payloads of 22 type shapes, 35%% a CONTAINER_INSTANCE field; plus "
@@ -197,7 +199,9 @@ def run(ctx):
                        "serial, not error texts) for bus-originated ones, per-receiver order.  ORACLE (independent decoder, implementation behaviour only): sender "
                        "= the name the bus itself told the writer in its Hello reply (or :not.active.yet at a monitor), no unknown / duplicated / "
                        "CONTAINER_INSTANCE field, every other field, flags, serial, signature and body as written; names begin with ':', pairwise distinct over the "
-                       "whole history, at most one per connection, consistent with NameAcquired / NameOwnerChanged / ListNames / GetNameOwner.  BYTE LEVEL: C03_relay_bytes proves that the model's relayed bytes decode to exactly "
+                       "whole history, at most one per connection, consistent with NameAcquired / NameOwnerChanged / ListNames / GetNameOwner; RequestName / ReleaseName of a ':' name is always refused, GetNameOwner / "
+                       "ListQueuedOwners of a ':' name answer that name alone and only while its Hello-holder lives, a message addressed to ':x.y' reaches (besides monitors and "
+                       "eavesdroppers) only the connection Hello named ':x.y'.  BYTE LEVEL: C03_relay_bytes proves that the model's relayed bytes decode to exactly "
                        "the received message with SENDER replaced and the untrusted-only fields removed; the run shows the daemon writes those very bytes.  ONLY EXPLORED, "
                        "not proved: counters near INT_MAX on the real daemon (the lifted function is run there instead), out-of-memory paths, the containers "
                        "feature (compiled out), match-rule / policy decisions (parameters of the model).",
